@@ -400,6 +400,8 @@ struct UZone {
 
 struct Universe {
     zones: Vec<UZone>,
+    /// parents answer an NS question at a zone cut with a referral (as BIND does) instead of an answer
+    ns_at_cut_is_referral: bool,
 }
 
 impl Universe {
@@ -418,6 +420,32 @@ impl Universe {
         match z.zone.resolve(&q.name, q.qtype) {
             None => {
                 m.header.rcode = Rcode::Refused;
+            }
+            Some(ZoneResult::Answer { rrs })
+                if self.ns_at_cut_is_referral
+                    && q.qtype == QueryType::Record(RecordType::NS)
+                    && q.name != z.apex
+                    && !rrs.is_empty()
+                    && self.zones.iter().any(|c| c.apex == q.name) =>
+            {
+                // the parent is not authoritative for the child's NS set: refer
+                if let Some(cz) = self.zones.iter().find(|c| c.apex == q.name) {
+                    for (host, addrs) in &cz.servers {
+                        if host.is_subdomain_of(&z.apex) {
+                            for a in addrs {
+                                m.additional.push(rr(
+                                    host,
+                                    match a {
+                                        IpAddr::V4(x) => RecordTypeWithData::A { address: *x },
+                                        IpAddr::V6(x) => RecordTypeWithData::AAAA { address: *x },
+                                    },
+                                    300,
+                                ));
+                            }
+                        }
+                    }
+                }
+                m.authority = rrs;
             }
             Some(ZoneResult::Answer { rrs }) => {
                 m.header.is_authoritative = true;
@@ -614,7 +642,10 @@ fn gen_universe(r: &mut Rng, single_ns: bool, dual: bool) -> Universe {
             match if k == 0 { 2 } else { r.below(5) } {
                 0 => {
                     let tz = 1 + r.below(nzones - 1);
-                    let mut tl = vec![lbl(b"h0")];
+                    // mostly h0 (always an address); sometimes an earlier h<k'>, which may itself be an
+                    // alias: chains of several aliases across zones, never a loop (k' < k)
+                    let tk = if k > 1 && r.chance(1, 2) { r.below(k) } else { 0 };
+                    let mut tl = vec![lbl(format!("h{tk}").as_bytes())];
                     tl.extend(zones[tz].apex.labels.iter().cloned());
                     let target = DomainName::from_labels(tl).unwrap();
                     if target != name {
@@ -641,7 +672,7 @@ fn gen_universe(r: &mut Rng, single_ns: bool, dual: bool) -> Universe {
             }
         }
     }
-    Universe { zones }
+    Universe { zones, ns_at_cut_is_referral: r.chance(1, 2) }
 }
 
 fn universe_script(u: &Universe, questions: &[Question]) -> Vec<Entry> {
@@ -767,13 +798,36 @@ pub fn universe_scenario(r: &mut Rng, single_ns: bool, dual: bool) -> Scenario {
         question.qtype = QueryType::from(*r.pick(&[255u16, 255, 1, 28]));
         expect = None;
     }
+    // warm cache: the aliases of the question's chain were learnt by an earlier question (for another
+    // type), the final records were not; the answer must still be the whole chain
+    let mut cache_rrs = Vec::new();
+    if expect.is_some() && r.chance(1, 4) {
+        let mut cur = question.name.clone();
+        for _ in 0..8 {
+            let z = u.zone_for(&cur);
+            match z.zone.resolve(&cur, QueryType::Record(RecordType::CNAME)) {
+                Some(ZoneResult::Answer { rrs }) if rrs.len() == 1 && z.apex != DomainName::root_domain() => {
+                    if let RecordTypeWithData::CNAME { cname } = &rrs[0].rtype_with_data {
+                        cur = cname.clone();
+                        cache_rrs.push(rrs[0].clone());
+                        continue;
+                    }
+                    break;
+                }
+                _ => break,
+            }
+        }
+        if question.qtype == QueryType::Record(RecordType::CNAME) {
+            cache_rrs.clear();
+        }
+    }
     let expect = expect.unwrap_or_else(|| "-".to_string());
     let script = if expect == "-" { universe_script(&u, &relevant_questions(&u, &question)) } else { script };
     Scenario {
         mode: Mode::Rec(pm, *r.pick(&[53u16, 5300])),
         zone_specs: vec![hspec],
         zones,
-        cache_rrs: Vec::new(),
+        cache_rrs,
         script,
         question,
         expect: if expect == "-" { None } else { Some(expect) },
